@@ -377,3 +377,19 @@ Proof.
     destruct (bytes_eqb k (B "h")); [intros H; inversion H; split; [discriminate|repeat constructor; intros []]|discriminate].
   - vm_compute. repeat split.
 Qed.
+
+(* ---------------------------------------------------------------- all command families (Mem/AllInv.v)
+   The hash invariant is preserved by every command of EVERY family (RENAME moving a hash, DEL,
+   SET overwriting it, expiry ...), hence by any interleaving of them. *)
+Require Mem.AllInv Mem.ZSetsCompose Mem.Exec.
+
+Theorem C10_invariants_all_commands : forall (prog : list (Z * Z * list bytes * reply)) (d : db),
+  db_wf d -> hashes_ok d ->
+  db_wf (ZSetsCompose.run_cmds prog d) /\ hashes_ok (ZSetsCompose.run_cmds prog d).
+Proof. exact AllInv.hashes_ok_all_commands. Qed.
+Print Assumptions C10_invariants_all_commands.
+
+Theorem C10_invariants_any_command : forall d now nowms args hint,
+  AllInv.all_ok d -> AllInv.all_ok (snd (Exec.exec d now nowms args hint)).
+Proof. exact AllInv.exec_all_ok. Qed.
+Print Assumptions C10_invariants_any_command.
